@@ -25,6 +25,7 @@
 //! | `in` | `path.iter().transformed(&m).flattened(tol)` (`tf`), `path.iter().flattened(tol).transformed(&m)` (`ft`) |
 //! | `e2e` | `Flattened::new(Rec(n), tol)` (`b`), `path.iter().flattened(tol)` (`f`), `for_each_flattened` (`a`) — no advice: the model side runs the C09 model of lyon_geom's flattener (end-to-end tie) |
 //! | `sim` | `m` an EXACT similarity (scale 2^k, quarter-turn rotation, no translation: every float operation of the flattener commutes with it), `s` its scale: `ft` `Rec.transformed(m).flattened(tol)` (flatten at `tol` in the source space, then transform) / `tf` `Rec.flattened(s·tol).transformed(m)` (transform, then flatten at `s·tol` in the target space); model: `flatBuilderC` with the C09 flattener model (no advice); oracle `builder.nesting/similarity`: the two routes agree call for call (theorem `flatten_transform_similarity_concrete`) |
+//! | `mir` | a program of lines and quadratics (`o`) and its MIRROR IMAGE under `(x, y) -> (x, -y)` (`m`), both through the real `Flattened::new(Rec(n), tol)` at the same tolerance, and the two call counts (`n`); model: `flatBuilderC` with the C09 flattener model (no advice). Oracle `builder.nesting/mirror`: equal counts -> the mirror route is the mirrored original call for call (theorem `flatten_transform_reflection_concrete`); different counts on a program with a quadratic whose `parabola_from` or `parabola_to` is exactly 0 -> `skip` mirror-asymmetry (observation: lyon_geom's sign test `(parabola_from < 0) == (parabola_to < 0)` is not symmetric at 0); different counts otherwise -> fail |
 //! | `e2ep` | `e2e` without the iterator route, on fixed programs incl. curves whose segment count does not fit `u32`: lyon_geom panics in `count.to_u32().unwrap()`; the model's `flatBuilderC` / `flatAttrIterC` are `none` there and print `panic` too (the outcome the theorems of `Props/C16b.lean` exclude by `… = some out`) |
 //!
 //! CASE  `n tol m11 m12 m21 m22 m31 m32 <prog>`; prog = `B x y a*n | L x y a*n | Q cx cy x y a*n |
@@ -1524,6 +1525,47 @@ fn run_family(fam: &str, inp: &Input) -> CaseOut {
                 }
             }
         }
+        "mir" => {
+            // m is the mirror map (x, y) -> (x, -y), exact in floats: negation commutes with every
+            // rounding of the flattener, so the mirror image must be flattened into the mirrored
+            // polyline -- unless lyon_geom's sign test is hit at exactly 0 (see the family table)
+            let fo = rec_run(|r| r.flattened(tol), n, cmds);
+            let xcmds = prims(&xprog);
+            let fm = rec_run(|r| r.flattened(tol), n, &xcmds);
+            o.t("o");
+            put_prog(&mut o, &fo);
+            o.t("m");
+            put_prog(&mut o, &fm);
+            o.t("n").u(fo.len() as u64).u(fm.len() as u64);
+            nested(&mut orc, "builder.flatten", &fo);
+            nested(&mut orc, "builder.flatten", &fm);
+            check_flat(&mut orc, &mut def, "builder.flatten", Kind::Builder, prog, tol, &id, true, &fo);
+            check_flat(&mut orc, &mut def, "builder.flatten", Kind::Builder, &xprog, tol, &id, true, &fm);
+            if fo.len() == fm.len() {
+                let want = map_prog(&fo, &xf);
+                for (i, (a, b)) in want.iter().zip(fm.iter()).enumerate() {
+                    orc.check(a == b, "builder.nesting/mirror", "generic", || format!("call {}: mirrored flattening {:?}, flattening of the mirror image {:?}", i, a, b));
+                }
+            } else {
+                // is a quadratic of the program flattened from the vertex of its parabola
+                // (parabola_from == 0) or up to it (parabola_to == 0)? same expressions as lyon_geom
+                let at_zero = curves_of(prog).iter().any(|c| match c {
+                    Curve::Q(a, c, b) => {
+                        let ddx = 2.0 * c.x - a.x - b.x;
+                        let ddy = 2.0 * c.y - a.y - b.y;
+                        let n1 = (c.x - a.x) * ddx + (c.y - a.y) * ddy;
+                        let n2 = (b.x - c.x) * ddx + (b.y - c.y) * ddy;
+                        n1 == 0.0 || n2 == 0.0
+                    }
+                    _ => false,
+                });
+                if at_zero {
+                    orc.skip(&format!("mirror-asymmetry: {} calls vs {} for the mirror image; a quadratic has parabola_from or parabola_to exactly 0, where lyon_geom's sign test is not symmetric (observation C16-obs-flatten-mirror-asymmetry: the property does not demand mirror symmetry)", fo.len(), fm.len()));
+                } else {
+                    orc.check(false, "builder.nesting/mirror", "generic", || format!("{} calls vs {} for the mirror image, no quadratic at parabola parameter 0", fo.len(), fm.len()));
+                }
+            }
+        }
         "na" => {
             let f = rec_run(|r| NoAttributes::wrap(r).flattened(tol), 0, cmds);
             let t = rec_run(|r| NoAttributes::wrap(r).transformed(m), 0, cmds);
@@ -1702,6 +1744,36 @@ fn emit(ctx: &mut Ctx, fam: &'static str, fixed: Option<Input>) {
         put_advice(&mut args, fam, &inp);
         let tag = format!("{} {}", fam, inp.tag);
         (args, tag, move || run_family(fam, &inp))
+    });
+}
+
+/// family `mir`: a generated program of lines and quadratics (no cubics: the harness classifies the
+/// asymmetric case on the quadratics it can see)
+fn ctx_mir(ctx: &mut Ctx, mirror: Transform) {
+    ctx.case("mir", |rng| {
+        let lattice = rng.chance(1, 2);
+        let mut co = |rng: &mut Rng| -> f32 {
+            if lattice {
+                rng.range(-8, 8) as f32
+            } else {
+                rng.uniform(-10.0, 10.0) as f32
+            }
+        };
+        let n = rng.below(3) as usize;
+        let mut prog = vec![Op::B(point(co(rng), co(rng)), gen_attrs(rng, n, lattice))];
+        for _ in 0..1 + rng.below(3) {
+            if rng.chance(1, 4) {
+                prog.push(Op::L(point(co(rng), co(rng)), gen_attrs(rng, n, lattice)));
+            } else {
+                prog.push(Op::Q(point(co(rng), co(rng)), point(co(rng), co(rng)), gen_attrs(rng, n, lattice)));
+            }
+        }
+        prog.push(Op::E(rng.chance(1, 2)));
+        let tol = gen_tol(rng, false);
+        let inp = Input::new(n, tol, mirror, prims(&prog), format!("{} lines+quadratics", if lattice { "lattice" } else { "uniform" }));
+        let args = put_input(&inp);
+        let tag = format!("mir {}", inp.tag);
+        (args, tag, move || run_family("mir", &inp))
     });
 }
 
@@ -2126,6 +2198,27 @@ fn main() {
             let inp = Input::new(1, 0.05, Transform::new(0.0, 1.0, -1.0, 0.0, 3.0, -2.0), prims(&prog), "witness partial-stream".to_string());
             emit_ip(&mut ctx, Some((inp, mode)));
         }
+    }
+    // a program and its mirror image through the real builder-side Flattened: the witnesses of the
+    // observation C16-obs-flatten-mirror-asymmetry (a quadratic starting at the vertex of its
+    // parabola), the same curve at tolerances where the counts agree, and generated programs of
+    // lines and quadratics (lattice: many hit parabola parameter 0 exactly; uniform: generic)
+    let mirror = Transform::new(1.0, 0.0, 0.0, -1.0, 0.0, 0.0);
+    for (k, tol) in [0.0573f32, 0.0572, 0.0571, 0.0254, 0.05, 0.01, 0.2].iter().enumerate() {
+        let prog = vec![Op::B(p(0., 0.), vec![1.]), Op::Q(p(1., 0.), p(2., 1.), vec![2.]), Op::E(false)];
+        let inp = Input::new(1, *tol, mirror, prims(&prog), format!("witness mirror-asymmetry {}", k));
+        emit(&mut ctx, "mir", Some(inp));
+    }
+    {
+        // ends at the vertex (parabola_to = 0), and a closed two-curve path
+        let prog = vec![Op::B(p(2., 1.), vec![]), Op::Q(p(1., 0.), p(0., 0.), vec![]), Op::Q(p(-1., 0.), p(-2., 3.), vec![]), Op::E(true)];
+        for tol in [0.0573f32, 0.0254, 0.1] {
+            let inp = Input::new(0, tol, mirror, prims(&prog), "witness mirror-asymmetry to-vertex".to_string());
+            emit(&mut ctx, "mir", Some(inp));
+        }
+    }
+    for _ in 0..ctx.n(400, 4000) {
+        ctx_mir(&mut ctx, mirror);
     }
     let k = ctx.n(2000, 25000);
     for _ in 0..k {
